@@ -3,6 +3,7 @@ import SciVerif.Model.C17
 import SciVerif.Lemmas.C17k
 import SciVerif.Lemmas.C17l
 import SciVerif.Lemmas.C17m
+import SciVerif.Lemmas.C17n
 open Lean SciVerif.Drive
 
 namespace SciVerif.C17.Drive
@@ -403,6 +404,17 @@ def nestedCover (tbl : UnitTable) (benv : Env) (items : List Item) (stmts : List
       if !itemsMatch its items then "records-differ"
       else if runNB tbl benv ls then "accepts" else "refuses"
 
+/-- the declared-node fragment (C17_refinement_declared_partial) on the program that is run: every
+    statement passes `litFragB`, the line records `concD` builds are, field by field, the records
+    the model is run on, and `invDB` accepts the environment the program starts from -/
+def declCover (tbl : UnitTable) (benv : Env) (items : List Item) (stmts : List SStmt) : String :=
+  if !stmts.all litFragB then "outside-fragment"
+  else match stmts.mapM concD with
+    | none => "outside-fragment"
+    | some its =>
+      if !itemsMatch its items then "records-differ"
+      else if invDB tbl benv then "accepts" else "env-refused"
+
 def runTie (tbl : UnitTable) (mj sj : Json) : Except String Json := do
   let srcs ← getList (fieldD mj "sources" |> fun x => if x == Json.null then Json.arr #[] else x)
   match parseSources tbl srcs [] [] with
@@ -438,6 +450,10 @@ def runTie (tbl : UnitTable) (mj sj : Json) : Except String Json := do
                         ("frag", Json.bool frag),
                         ("nested", jstr (nestedCover tbl benv mainItems mainStmts)),
                         ("inv0", Json.bool (invB tbl env0)),
+                        ("declared", jstr (declCover tbl benv mainItems mainStmts)),
+                        ("declared_has_decl", Json.bool (mainStmts.any (fun s => match s with
+                          | .decl .. => true
+                          | _ => false))),
                         ("base_nested", baseNested),
                         ("inv", Json.bool (invB tbl benv)),
                         ("inv_bad", jarr (fun (n : Node) => jS n.name) badNodes),
